@@ -116,6 +116,17 @@ func TestC10SelfJudge(t *testing.T) {
 		if c.want == "" && v.twoStep != c.twoStep {
 			t.Errorf("%s: twoStep=%v, want %v", c.name, v.twoStep, c.twoStep)
 		}
+		// the differential oracle (sequential orders on the real tree) must agree wherever it has an opinion:
+		// it does not judge concurrent queries, everything else it must refuse / accept like the model judge
+		diffBad := c.want == "impossible-result" || c.want == "not-linearizable" || c.want == "lost-add" || c.want == "failed-add-left-trace" ||
+			c.name == "delete returned the leaf yet it is still there"
+		dv := diffJudge(h, 100000)
+		if dv.inconclusive != "" || dv.ok == diffBad {
+			t.Errorf("%s: differential oracle ok=%v inconclusive=%q (%s), want ok=%v", c.name, dv.ok, dv.inconclusive, dv.msg, !diffBad)
+		}
+		if c.want == "" && dv.twoStep != c.twoStep {
+			t.Errorf("%s: differential oracle twoStep=%v, want %v", c.name, dv.twoStep, c.twoStep)
+		}
 		// the per-subtree projections must agree on legal histories
 		if parts, ok := partitionHistory(h); ok && c.want == "" {
 			for x, ph := range parts {
@@ -138,5 +149,59 @@ func TestC10SelfJudge(t *testing.T) {
 	}}
 	if v := judge(ph, 5*time.Second, 5*time.Second); v.class != "not-linearizable" || !strings.Contains(v.msg, "delcond") {
 		t.Errorf("probe history judged %q (%s)", v.class, v.msg)
+	}
+	if dv := diffJudge(ph, 100000); dv.ok || dv.inconclusive != "" {
+		t.Errorf("probe history: differential oracle ok=%v inconclusive=%q", dv.ok, dv.inconclusive)
+	}
+	// a handle shared by two goroutines: the use that was called last need not come last
+	sh := &History{Ops: []HOp{
+		op(9, "add", ab, 1, 2, val(28)),
+		op(9, "getleaf", ab, 3, 4, func(o *HOp) { o.H, o.Node = 1, "leaf" }),
+		op(0, "del", nil, 5, 9, func(o *HOp) { o.Paths = [][]string{ab} }),
+		op(1, "hupd", ab, 6, 12, func(o *HOp) { o.H, o.Val = 1, 802 }),
+		op(2, "hval", ab, 7, 11, func(o *HOp) { o.H, o.Got = 1, 28 }),
+		op(3, "final", nil, 13, 14, func(o *HOp) { o.KV = []KV{} }),
+	}}
+	if v := judge(sh, 5*time.Second, 5*time.Second); v.class != "" || v.inconclusive != "" {
+		t.Errorf("shared handle history judged %q %q (%s)", v.class, v.inconclusive, v.msg)
+	}
+	if dv := diffJudge(sh, 100000); !dv.ok {
+		t.Errorf("shared handle history: differential oracle ok=%v inconclusive=%q (%s)", dv.ok, dv.inconclusive, dv.msg)
+	}
+	// empty nodes: a terminal add and an add through the same empty node cannot both succeed ...
+	root := []string{}
+	both := &History{Ops: []HOp{
+		op(0, "add", root, 1, 4, val(3)),
+		op(1, "add", []string{"c"}, 2, 3, val(5)),
+		op(3, "final", nil, 5, 6, func(o *HOp) { o.KV = []KV{{root, 3}} }),
+	}}
+	if v := judge(both, 5*time.Second, 5*time.Second); v.class == "" {
+		t.Errorf("both adds at/through the empty root succeeded: model judge accepted it")
+	}
+	if dv := diffJudge(both, 100000); dv.ok || dv.inconclusive != "" {
+		t.Errorf("both adds at/through the empty root succeeded: differential oracle ok=%v inconclusive=%q", dv.ok, dv.inconclusive)
+	}
+	// ... unless the node holds nil again in between (differential oracle only: the model does not cover nil values)
+	nilOK := &History{Ops: []HOp{
+		op(9, "add", ab, 1, 2, func(o *HOp) { o.Nil = true }),
+		op(0, "add", ab, 3, 4, val(3)),
+		op(0, "add", ab, 5, 6, func(o *HOp) { o.Nil = true }),
+		op(1, "add", []string{"a", "b", "c"}, 7, 8, val(5)),
+		op(3, "final", nil, 9, 10, func(o *HOp) { o.KV = []KV{{[]string{"a", "b", "c"}, 5}} }),
+	}}
+	if v := judge(nilOK, 5*time.Second, 5*time.Second); v.class != "" || v.inconclusive == "" {
+		t.Errorf("history with nil values: model judge must be inconclusive, got %q %q", v.class, v.inconclusive)
+	}
+	if dv := diffJudge(nilOK, 100000); !dv.ok {
+		t.Errorf("nil leaf turned into a branch: differential oracle ok=%v inconclusive=%q (%s)", dv.ok, dv.inconclusive, dv.msg)
+	}
+	nilBad := &History{Ops: []HOp{
+		op(9, "add", ab, 1, 2, func(o *HOp) { o.Nil = true }),
+		op(0, "add", ab, 3, 6, val(3)),
+		op(1, "add", []string{"a", "b", "c"}, 4, 5, val(5)),
+		op(3, "final", nil, 9, 10, func(o *HOp) { o.KV = []KV{{ab, 3}} }),
+	}}
+	if dv := diffJudge(nilBad, 100000); dv.ok || dv.inconclusive != "" {
+		t.Errorf("add at and add through a nil leaf both succeeded: differential oracle ok=%v inconclusive=%q", dv.ok, dv.inconclusive)
 	}
 }
